@@ -602,7 +602,7 @@ def exec_e2e(case, cfg):
 def shrink_case(case, klass, cfg):
     def fails(c):
         r = exec_case(c, cfg)
-        return r["verdict"] in ("violation", "known") and r.get("klass") == klass
+        return r["verdict"] == cfg.get("want_verdict", "violation") and r.get("klass") == klass
 
     def make(c, field, sub):
         d = dict(c)
